@@ -41,3 +41,8 @@ CREATE_VM_OB = {
 }
 
 DATASET_COMPILE = dict(X86, main="src/dataset.cpp", keep=["initCacheCompile"], must_fire={"object method call": 4})
+
+RX_INIT_DATASET = {"main": "src/randomx.cpp", "keep": ["randomx_init_dataset"],
+                   "pre_rewrites": [{"name": "indirect call through the datasetInit field -> contract stub of the function type",
+                                     "pattern": r"cache->datasetInit\(", "repl": "rxv_dataset_init("}],
+                   "must_fire": {"recipe rewrite: indirect call through the datasetInit field -> contract stub of the function type": 4}}
